@@ -8,11 +8,15 @@ thread's write set is disjoint from every other thread's read and write sets, th
 conflicting accesses from different threads (data-race freedom in the sense of the Go memory model), and every
 read of a thread sees the same value as in its solo run.
 
-What ties the footprints to the code: (i) `Facts.globalWrites = []` and `Facts.globalAddrArgs ⊆ read-only
-parameters`, extracted from the source on every run; (ii) `Facts.untouched` from the cell analysis (arguments
-never rebound); (iii) the C15 frame theorems for byte slices; (iv) at run time, the harness built with `-race`
-(8 goroutines × every API function × shared arguments). The Go scheduler and memory model are modelled, not
-verified (DESIGN §8): level `other`.
+What ties the footprints to the code: (i) `Facts.apiFootprints`, re-derived from the source on every run by a
+may-write analysis over all three packages (taint of every name that may point into a parameter's memory; stores,
+`copy`, `append`, known library writers, pointer-receiver calls, interprocedural summaries, unknown externals
+pessimistic): for every exported function, which parameters it may write through — theorem `api_writes_only_output`
+says: only the receiver; (ii) `Facts.globalWrites = []` and `Facts.globalAddrArgs ⊆ read-only parameters`;
+(iii) `Facts.sliceParamWrites = []` and the C15 frame theorems for byte slices; (iv) at run time, the harness built
+with `-race` (8 goroutines × every API function × shared arguments). `api_schedule_disciplined` then instantiates the
+generic theorems for any set of concurrent API calls whose receivers are owned by their goroutine. The Go scheduler
+and memory model are modelled by the interleaving semantics, not verified (DESIGN §8).
 -/
 namespace C16
 
@@ -101,6 +105,123 @@ theorem arguments_untouched :
     ("Curve.addProjectiveComplete_eu_v", ["v"]) ∈ Facts.untouched ∧
     ("Curve.isEqual", ["e", "u"]) ∈ Facts.untouched ∧
     ("Curve.affine", ["e"]) ∈ Facts.untouched := by decide
+
+/-! ## The API's footprint table (regenerated from the source on every run) and what it implies -/
+
+/-- an entry of `Facts.apiFootprints`: name, is-a-method, and for every parameter through which caller memory is reachable
+`(position, name, may be written)` -/
+abbrev Entry := String × Bool × List (Nat × String × Bool)
+
+/-- the designated output of an API function: the receiver of a method; the first parameter of the two exported helpers
+that follow the field package's `f(out, in)` convention -/
+def outputPos (e : Entry) : Option Nat :=
+  if e.2.1 then some 0
+  else if e.1 = "secp.Secp256Polynomial" ∨ e.1 = "secp.IsogenySecp256k13iso" then some 0 else none
+
+/-- **arguments are only read**: in the footprint table extracted from the current source, the only parameter through which
+any API function may write caller memory is its designated output (its receiver) — never an argument, never a slice -/
+theorem api_writes_only_output :
+    ∀ e ∈ Facts.apiFootprints, ∀ p ∈ e.2.2, p.2.2 = true → outputPos e = some p.1 := by decide
+
+/-- the table is not trivially empty: it covers the arithmetic, the decoders and the hashing functions -/
+theorem api_table_covers :
+    50 ≤ Facts.apiFootprints.length ∧
+    (∀ f ∈ ["(*secp.Element).Add", "(*secp.Element).Subtract", "(*secp.Element).Multiply", "(*secp.Element).Equal",
+            "(*secp.Element).Decode", "(*secp.Scalar).Multiply", "(*secp.Scalar).CSelect", "(*secp.Scalar).Decode",
+            "secp.HashToGroup", "secp.EncodeToGroup", "secp.HashToScalar"], f ∈ Facts.apiFootprints.map (·.1)) := by decide
+
+/-- a concurrent API call: the thread issuing it, its table entry, and the shared-memory location bound to each parameter
+position (memory allocated by the call itself is private to the thread and not part of the shared location space) -/
+structure Call where
+  thread : Nat
+  entry : Entry
+  loc : Nat → Loc
+
+/-- the shared-memory accesses a call may perform, according to its table entry: every reachable parameter may be read,
+a parameter marked written may be written -/
+def Call.accesses (c : Call) : List Access :=
+  c.entry.2.2.flatMap fun p => ⟨c.thread, c.loc p.1, false⟩ :: (if p.2.2 then [⟨c.thread, c.loc p.1, true⟩] else [])
+
+/-- "receivers they own": the output location of a call is not bound to any parameter of a call of another goroutine -/
+def Owned (calls : List Call) : Prop :=
+  ∀ c ∈ calls, ∀ c' ∈ calls, c.thread ≠ c'.thread →
+    ∀ o, outputPos c.entry = some o → ∀ p' ∈ c'.entry.2.2, c.loc o ≠ c'.loc p'.1
+
+/-- **C16 on the footprint model**: any number of goroutines, any API functions, any sharing of arguments, any
+interleaving: if every goroutine owns its receivers, the schedule satisfies the footprint discipline -/
+theorem api_schedule_disciplined (calls : List Call) (hapi : ∀ c ∈ calls, c.entry ∈ Facts.apiFootprints)
+    (hown : Owned calls) (sched : List Access) (hs : ∀ a ∈ sched, ∃ c ∈ calls, a ∈ c.accesses) :
+    Disciplined sched := by
+  intro a ha b hb hw hl
+  obtain ⟨c, hc, hac⟩ := hs a ha
+  obtain ⟨c', hc', hbc⟩ := hs b hb
+  unfold Call.accesses at hac hbc
+  rw [List.mem_flatMap] at hac hbc
+  obtain ⟨p, hp, hap⟩ := hac
+  obtain ⟨p', hp', hbp⟩ := hbc
+  -- `a` is a write: it is the write access of a parameter marked written
+  have ha' : p.2.2 = true ∧ a = ⟨c.thread, c.loc p.1, true⟩ := by
+    rw [List.mem_cons] at hap
+    rcases hap with e | e
+    · rw [e] at hw; exact absurd hw (by simp)
+    · by_cases hpw : p.2.2 = true
+      · rw [if_pos hpw, List.mem_singleton] at e; exact ⟨hpw, e⟩
+      · rw [if_neg hpw] at e; exact absurd e (by simp)
+  have hb' : b.thread = c'.thread ∧ b.loc = c'.loc p'.1 := by
+    rw [List.mem_cons] at hbp
+    rcases hbp with e | e
+    · rw [e]; exact ⟨rfl, rfl⟩
+    · by_cases hpw : p'.2.2 = true
+      · rw [if_pos hpw, List.mem_singleton] at e; rw [e]; exact ⟨rfl, rfl⟩
+      · rw [if_neg hpw] at e; exact absurd e (by simp)
+  have hout := api_writes_only_output c.entry (hapi c hc) p hp ha'.1
+  by_cases hne : a.thread = b.thread
+  · exact hne
+  · exfalso
+    have hthr : c.thread ≠ c'.thread := by
+      intro e; apply hne; rw [ha'.2, hb'.1]; exact e
+    apply hown c hc c' hc' hthr p.1 hout p' hp'
+    rw [← hb'.2, ← hl, ha'.2]
+
+/-- hence: no data race in any interleaving … -/
+theorem api_race_free (calls : List Call) (hapi : ∀ c ∈ calls, c.entry ∈ Facts.apiFootprints)
+    (hown : Owned calls) (sched : List Access) (hs : ∀ a ∈ sched, ∃ c ∈ calls, a ∈ c.accesses) :
+    ∀ a ∈ sched, ∀ b ∈ sched, ¬ conflict a b :=
+  noninterference sched (api_schedule_disciplined calls hapi hown sched hs)
+
+/-- … and every location a goroutine writes (its receivers) ends, after any interleaving with any values written, as in
+that goroutine's solo run: every call returns what it would return if run alone -/
+theorem api_deterministic (calls : List Call) (hapi : ∀ c ∈ calls, c.entry ∈ Facts.apiFootprints)
+    (hown : Owned calls) (sched : List (Access × Nat)) (hs : ∀ a ∈ sched, ∃ c ∈ calls, a.1 ∈ c.accesses)
+    (mem : Loc → Nat) (t : Nat) (l : Loc) (hl : ∃ p ∈ sched, p.1.thread = t ∧ p.1.write = true ∧ p.1.loc = l) :
+    run mem sched l = run mem (sched.filter (fun p => p.1.thread = t)) l := by
+  apply solo_equiv
+  intro q hq hqw hql
+  obtain ⟨p, hp, hpt, hpw, hpl⟩ := hl
+  have hd := api_schedule_disciplined calls hapi hown (sched.map (·.1))
+    (fun a ha => by
+      rw [List.mem_map] at ha
+      obtain ⟨x, hx, rfl⟩ := ha
+      exact hs x hx)
+  have := hd q.1 (List.mem_map_of_mem hq) p.1 (List.mem_map_of_mem hp) hqw (by rw [hql, hpl])
+  rw [this, hpt]
+
+-- non-vacuity: two goroutines subtract the same shared element from their own receivers
+example : Owned [⟨1, ("(*secp.Element).Subtract", true, [(0, "e", true), (1, "element", false)]), fun i => if i = 0 then 10 else 99⟩,
+                 ⟨2, ("(*secp.Element).Subtract", true, [(0, "e", true), (1, "element", false)]), fun i => if i = 0 then 20 else 99⟩] := by
+  intro c hc c' hc' hne o ho p' hp'
+  simp only [List.mem_cons, List.mem_nil_iff, or_false] at hc hc'
+  have ho' : o = 0 := by
+    rcases hc with rfl | rfl <;> simp [outputPos] at ho <;> exact ho.symm
+  subst ho'
+  rcases hc with rfl | rfl <;> rcases hc' with rfl | rfl
+  · exact absurd rfl hne
+  · simp only [List.mem_cons, List.mem_nil_iff, or_false] at hp'
+    rcases hp' with rfl | rfl <;> simp
+  · simp only [List.mem_cons, List.mem_nil_iff, or_false] at hp'
+    rcases hp' with rfl | rfl <;> simp
+  · exact absurd rfl hne
+
 
 -- non-vacuity: two threads with their own receivers (locs 1, 2) sharing a read-only argument (loc 0)
 example : Disciplined [⟨1, 0, false⟩, ⟨2, 0, false⟩, ⟨1, 1, true⟩, ⟨2, 2, true⟩, ⟨2, 0, false⟩] := by
